@@ -1051,4 +1051,32 @@ theorem compute_token_minimal_level (schema : TableSnapshot) (ks table : List UI
 example : clusterComputeToken [([1], [([2], ⟨0, some cdcSuffix⟩)])] [1] [2] [.value [7]] = .error .serialization :=
   compute_token_minimal_level _ [1] [2] [([2], ⟨0, some cdcSuffix⟩)] ⟨0, some cdcSuffix⟩ _ rfl rfl rfl (by decide)
 
+/-! ### materialized views -/
+
+/-- **Observed behaviour on materialized views.** `SchemaSnapshot` / `TableSnapshot` model `keyspace.tables`; views
+live in `keyspace.views`, which neither `extract_partitioner_name` nor `lookup_table_meta` reads. So for a view (a name
+that is not a key of its keyspace's `tables`), whatever partitioner the server reports for it: a prepared statement on
+it gets the default partitioner, and `compute_token` / `compute_token_preserialized` answer `UnknownTable`. (Correct as
+long as views use Murmur3, which they do today.) -/
+theorem materialized_view_paths (ks view : List UInt8) (tablesP : List (List UInt8 × Option (List UInt8)))
+    (tablesT : List (List UInt8 × TableInfo)) (schemaP : SchemaSnapshot) (schemaT : TableSnapshot)
+    (key : List RawValue)
+    (hP : schemaP.lookup ks = some tablesP) (hvP : tablesP.lookup view = none)
+    (hT : schemaT.lookup ks = some tablesT) (hvT : tablesT.lookup view = none) :
+    preparedPartitioner (some (ks, view)) schemaP = .murmur3 ∧
+    clusterComputeToken schemaT ks view key = .error .unknownTable ∧
+    clusterComputeTokenPreserialized schemaT ks view key = .error .unknownTable := by
+  refine ⟨?_, ?_, ?_⟩
+  · exact preparedPartitioner_default _ _ (Or.inr ⟨ks, view, rfl, Or.inr ⟨tablesP, hP, Or.inl hvP⟩⟩)
+  · exact clusterComputeToken_unknown_table _ _ _ _ (Or.inr ⟨tablesT, hT, hvT⟩)
+  · unfold clusterComputeTokenPreserialized
+    rw [hT]; simp only []; rw [hvT]
+
+example :
+    preparedPartitioner (some ([1], [9])) [([1], [([2], some cdcSuffix)])] = .murmur3 ∧
+    clusterComputeToken [([1], [([2], ⟨1, none⟩)])] [1] [9] [.value [7]] = .error .unknownTable :=
+  let h := materialized_view_paths [1] [9] [([2], some cdcSuffix)] [([2], ⟨1, none⟩)]
+    [([1], [([2], some cdcSuffix)])] [([1], [([2], ⟨1, none⟩)])] [.value [7]] rfl rfl rfl rfl
+  ⟨h.1, h.2.1⟩
+
 end ScyllaVerif.Props.C03
